@@ -22,7 +22,10 @@ Environment (all optional; nothing happens unless PYTHON_MYPY_VERIF=1 and C04_SP
 * crash: the process calls os._exit(70) (scope=process) or kills its whole process group with SIGKILL
   (scope=group: "the run is killed") immediately before / after the identified operation.
 * fail: the identified writes are not performed and return False -- the documented failure mode of
-  MetadataStore.write (OSError in os.replace / sqlite3.OperationalError are both mapped to False by the stores).
+  MetadataStore.write (OSError in os.replace / sqlite3.OperationalError are both mapped to False by the stores);
+  an identified `remove` raises PermissionError (filesystem store) / sqlite3.OperationalError (sqlite store).
+* unnamed operations (commit) carry "anchor" = "<kind>:<name>:<occ>" of the last named operation of the process;
+  their "occ" counts from that anchor, and a crash spec for them must give the same "anchor".
 """
 from __future__ import annotations
 
@@ -62,6 +65,9 @@ def install() -> None:
     fails = {(f[0], f[1], f[2], int(f[3])) for f in spec.get("fail", [])}
     only = spec.get("only")
     counts: dict[tuple[str, str], int] = {}
+    # unnamed operations (commit) are identified by the last NAMED operation of this process before them
+    # ("anchor") + their number since then: stable under any assignment of SCCs to workers
+    state = {"anchor": ""}
 
     def relevant(name: str) -> bool:
         if not name or not only:
@@ -79,15 +85,16 @@ def install() -> None:
     def matches(kind: str, name: str, occ: int, when: str) -> bool:
         return (crash is not None and crash.get("when", "before") == when
                 and crash["role"] in (role, "any") and crash["kind"] == kind
-                and crash["name"] == name and int(crash["occ"]) == occ)
+                and crash["name"] == name and int(crash["occ"]) == occ
+                and (name != "" or crash.get("anchor", "") == state["anchor"]))
 
     def point(kind: str, name: str) -> tuple[int, bool]:
         """Called before an operation: counts it, kills the process if this is the crash point.
         Returns (occ, fail?)."""
-        key = (kind, name)
+        key = (kind, name if name else "@" + state["anchor"])
         occ = counts.get(key, 0)
         counts[key] = occ + 1
-        failing = kind == "write" and ((role, kind, name, occ) in fails or ("any", kind, name, occ) in fails)
+        failing = kind in ("write", "remove") and ((role, kind, name, occ) in fails or ("any", kind, name, occ) in fails)
         if matches(kind, name, occ, "before"):
             die()
         return occ, failing
@@ -96,10 +103,14 @@ def install() -> None:
         """Called after the operation has been executed (trace lines = completed operations)."""
         if fd >= 0:
             ev = {"role": role, "w": widx, "pid": os.getpid(), "kind": kind, "name": name, "occ": occ}
+            if not name:
+                ev["anchor"] = state["anchor"]
             ev.update(extra)
             os.write(fd, (json.dumps(ev, sort_keys=True) + "\n").encode())
         if matches(kind, name, occ, "after"):
             die()
+        if name:
+            state["anchor"] = f"{kind}:{name}:{occ}"
 
     import mypy.metastore as ms
 
@@ -117,11 +128,18 @@ def install() -> None:
         def remove(self, name):
             if not relevant(name):
                 return o_remove(self, name)
-            occ, _ = point("remove", name)
+            occ, failing = point("remove", name)
             try:
+                if failing:
+                    # the failure modes of the two stores: os.remove raising an OSError that is not
+                    # FileNotFoundError / sqlite3 raising OperationalError
+                    if is_sqlite:
+                        import sqlite3
+                        raise sqlite3.OperationalError("database is locked (injected)")
+                    raise PermissionError(13, "Permission denied (injected)", name)
                 res = o_remove(self, name)
             except BaseException as e:
-                done("remove", name, occ, {"raised": type(e).__name__})
+                done("remove", name, occ, {"raised": type(e).__name__, "ok": False, "injected": failing})
                 raise
             done("remove", name, occ, {})
             return res
